@@ -351,3 +351,161 @@ Proof. split; [vm_compute; reflexivity|]. split; [vm_compute; reflexivity|]. eex
 Example ex_saturates :
   rec_score (rec_at (s_dir (run_seq ex_cfg ex_name [(1, [104], ex_clock, 1700000000); (1, [], ex_clock, 1700000001); (2, [], ex_clock, 1700000002)] ex_state)) 0) = 99.
 Proof. vm_compute. reflexivity. Qed.
+
+(* ================================================================ board sessions: several articles, several commenters,
+   every comment-related board attribute; histories of comments *)
+Lemma set_nth_length k : forall l v, length (set_nth k l v) = length l.
+Proof. induction k as [|k IH]; intros [|a l] v; cbn [set_nth length]; try reflexivity. rewrite IH. reflexivity. Qed.
+
+Lemma set_nth_same k : forall l v, (k < length l)%nat -> nth k (set_nth k l v) [] = v.
+Proof.
+  induction k as [|k IH]; intros [|a l] v H; cbn [length] in H; try lia; cbn [set_nth nth]; [reflexivity|].
+  apply IH. lia.
+Qed.
+
+Lemma set_nth_other k : forall j l v, j <> k -> nth j (set_nth k l v) [] = nth j l [].
+Proof.
+  induction k as [|k IH]; intros j [|a l] v H; cbn [set_nth]; try reflexivity.
+  - destruct j as [|j]; [lia|reflexivity].
+  - destruct j as [|j]; [reflexivity|]. cbn [nth]. apply IH. lia.
+Qed.
+
+(* every OTHER entry of the index is byte for byte what it was *)
+Lemma frame_other (d d' : list Z) i : length d' = length d ->
+  (forall k, ~ (i * REC_SZ + 28 <= k < i * REC_SZ + 32)%nat -> k <> (i * REC_SZ + 33)%nat -> nth_error d' k = nth_error d k) ->
+  forall j, (j < length d / REC_SZ)%nat -> j <> i -> rec_at d' j = rec_at d j.
+Proof.
+  intros Hlen Hfr j Hj Hne. pose proof (entry_in_range d j Hj) as Hr. change REC_SZ with 128%nat in *.
+  apply nth_error_ext. intros k. unfold rec_at. change REC_SZ with 128%nat.
+  destruct (Nat.lt_ge_cases k 128) as [Hk|Hk].
+  - rewrite !slice_nth by lia. apply Hfr; lia.
+  - rewrite (proj2 (nth_error_None (slice d' (j * 128) 128) k)) by (rewrite slice_length; lia).
+    symmetry. apply nth_error_None. rewrite slice_length; lia.
+Qed.
+
+Definition scores_ok (d : list Z) : Prop :=
+  forall j, (j < length d / REC_SZ)%nat -> -100 <= rec_score (rec_at d j) <= 100.
+
+(* same length, and every entry has the name and the file mode it had in d0 *)
+Definition same_index (d0 d : list Z) : Prop :=
+  length d = length d0 /\
+  forall k, (k < length d0 / REC_SZ)%nat ->
+    rec_name (rec_at d k) = rec_name (rec_at d0 k) /\ rec_filemode (rec_at d k) = rec_filemode (rec_at d0 k).
+
+Lemma same_index_refl d : same_index d d.
+Proof. split; [reflexivity|]. intros k _. split; reflexivity. Qed.
+
+Lemma same_index_find d0 d name : same_index d0 d ->
+  find_entry d name (length d / REC_SZ) = find_entry d0 name (length d0 / REC_SZ).
+Proof. intros [Hl Hn]. rewrite Hl. apply find_entry_ext. intros k Hk. apply Hn. exact Hk. Qed.
+
+(* one step of a board session, accepted or refused, keeps: all scores in range, the shape of the index *)
+Lemma board_step_inv b names x s d0 :
+  0 < h_mtime x -> scores_ok (bs_dir s) -> same_index d0 (bs_dir s) ->
+  scores_ok (bs_dir (board_next x s (board_step b names x s))) /\
+  same_index d0 (bs_dir (board_next x s (board_step b names x s))).
+Proof.
+  intros Hm Hs Hsame. destruct (board_step b names x s) as [line s1|e] eqn:E; cbn [board_next]; [|split; assumption].
+  cbn [bs_dir]. unfold board_step in E.
+  destruct (index_frame _ _ _ _ _ _ _ _ _ E) as (i & Hf & Hlen & Hfr). cbn [s_dir] in Hf, Hlen, Hfr.
+  pose proof (find_entry_lt _ _ _ _ Hf) as Hi.
+  destruct (score_step _ _ _ _ _ _ _ _ _ _ E Hf Hm (Hs i Hi)) as (_ & Hrng & _). cbn [s_dir] in Hrng.
+  split.
+  - intros j Hj. rewrite Hlen in Hj. destruct (Nat.eq_dec j i) as [->|Hne]; [exact Hrng|].
+    rewrite (frame_other _ _ i Hlen Hfr j Hj Hne). apply Hs. exact Hj.
+  - destruct Hsame as [Hl0 Hn0]. split; [rewrite Hlen; exact Hl0|].
+    intros k Hk. assert (Hk' : (k < length (bs_dir s) / REC_SZ)%nat) by (rewrite Hl0; exact Hk).
+    destruct (frame_names _ _ i Hlen Hfr k Hk') as [H1 H2]. destruct (Hn0 k Hk) as [H3 H4].
+    split; [rewrite H1; exact H3|rewrite H2; exact H4].
+Qed.
+
+Lemma run_hist_inv b names d0 : forall (hist : list hstep) s,
+  Forall (fun y : hstep => 0 < h_mtime y) hist -> scores_ok (bs_dir s) -> same_index d0 (bs_dir s) ->
+  scores_ok (bs_dir (run_hist b names hist s)) /\ same_index d0 (bs_dir (run_hist b names hist s)).
+Proof.
+  induction hist as [|y r IH]; intros s Hm Hs Hsame; cbn [run_hist]; [split; assumption|].
+  inversion Hm as [|? ? Hy Hr]; subst.
+  destruct (board_step_inv b names y s d0 Hy Hs Hsame) as [H1 H2]. apply IH; assumption.
+Qed.
+
+(* after EVERY history of comments — by any commenters, of any types, on any articles of the board, whatever the board's
+   attributes and pause — an accepted comment has the outcome that its own type and the addressed entry determine *)
+Lemma board_history b names (hist : list hstep) s0 x line s1 :
+  scores_ok (bs_dir s0) -> Forall (fun y : hstep => 0 < h_mtime y) hist -> 0 < h_mtime x ->
+  board_step b names x (run_hist b names hist s0) = COk line s1 ->
+  let s := run_hist b names hist s0 in
+  let s' := board_next x s (COk line s1) in
+  line = comment_line (b_align b) (b_iplog b) (h_uid13 x) (h_ip16 x) (h_ct x) (h_content x) (h_clock x) /\
+  ((h_art x < length (bs_arts s))%nat -> nth (h_art x) (bs_arts s') [] = nth (h_art x) (bs_arts s) [] ++ line) /\
+  (forall j, j <> h_art x -> nth j (bs_arts s') [] = nth j (bs_arts s) []) /\
+  length (bs_arts s') = length (bs_arts s) /\
+  exists i, find_entry (bs_dir s0) (nth (h_art x) names []) (length (bs_dir s0) / REC_SZ) = Some i /\
+    rec_score (rec_at (bs_dir s') i) = clamp (rec_score (rec_at (bs_dir s) i) + delta (h_ct x)) /\
+    (forall j, (j < length (bs_dir s0) / REC_SZ)%nat -> j <> i -> rec_at (bs_dir s') j = rec_at (bs_dir s) j) /\
+    scores_ok (bs_dir s') /\ same_index (bs_dir s0) (bs_dir s').
+Proof.
+  intros Hs0 Hm Hx E. cbv zeta.
+  destruct (run_hist_inv b names (bs_dir s0) hist s0 Hm Hs0 (same_index_refl _)) as [Hs Hsame].
+  set (s := run_hist b names hist s0) in *.
+  pose proof (board_step_inv b names x s (bs_dir s0) Hx Hs Hsame) as Hinv. rewrite E in Hinv. destruct Hinv as [Hs' Hsame'].
+  cbn [board_next bs_arts bs_dir] in *. unfold board_step in E.
+  destruct (accepted_inv _ _ _ _ _ _ _ _ _ E) as (i & Hf & _ & _ & _ & Hl & _). cbn [s_dir cfg_of c_align c_iplog c_uid13 c_ip16] in Hf, Hl.
+  destruct (append_only _ _ _ _ _ _ _ _ _ E) as (Happ & _ & _). cbn [s_art] in Happ.
+  destruct (index_frame _ _ _ _ _ _ _ _ _ E) as (i' & Hf' & Hlen & Hfr). cbn [s_dir] in Hf', Hlen, Hfr.
+  rewrite Hf in Hf'. injection Hf' as <-. pose proof (find_entry_lt _ _ _ _ Hf) as Hi.
+  destruct (score_step _ _ _ _ _ _ _ _ _ _ E Hf Hx (Hs i Hi)) as (Hsc & _ & _). cbn [s_dir] in Hsc.
+  split; [exact Hl|]. split; [intros Hk; rewrite set_nth_same by exact Hk; exact Happ|].
+  split; [intros j Hj; apply set_nth_other; exact Hj|]. split; [apply set_nth_length|].
+  exists i. split; [rewrite <- (same_index_find _ _ _ Hsame); exact Hf|]. split; [exact Hsc|].
+  split; [|split; assumption].
+  intros j Hj Hne. apply (frame_other _ _ i Hlen Hfr); [|exact Hne]. destruct Hsame as [Hl0 _]. rewrite Hl0. exact Hj.
+Qed.
+
+(* ... in particular a push: the line starts with the push mark and the score goes up by exactly one below +100 *)
+Lemma push_after_any_history b names (hist : list hstep) s0 x line s1 :
+  scores_ok (bs_dir s0) -> Forall (fun y : hstep => 0 < h_mtime y) hist -> 0 < h_mtime x ->
+  h_ct x = CT_RECOMMEND ->
+  board_step b names x (run_hist b names hist s0) = COk line s1 ->
+  let s := run_hist b names hist s0 in
+  (exists rest, line = [27; 91; 49; 59; 51; 55; 109; 177; 192; 32] ++ rest) /\
+  exists i, find_entry (bs_dir s0) (nth (h_art x) names []) (length (bs_dir s0) / REC_SZ) = Some i /\
+    rec_score (rec_at (s_dir s1) i) = (if rec_score (rec_at (bs_dir s) i) <? 100 then rec_score (rec_at (bs_dir s) i) + 1 else 100).
+Proof.
+  intros Hs0 Hm Hx Hct E. cbv zeta.
+  destruct (board_history b names hist s0 x line s1 Hs0 Hm Hx E) as (Hl & _ & _ & _ & i & Hf & Hsc & _ & _ & _).
+  cbn [board_next bs_dir] in Hsc.
+  destruct (run_hist_inv b names (bs_dir s0) hist s0 Hm Hs0 (same_index_refl _)) as [Hs Hsame].
+  split.
+  - rewrite Hl, Hct. unfold comment_line. eexists. reflexivity.
+  - exists i. split; [exact Hf|]. rewrite Hsc, Hct. change (delta CT_RECOMMEND) with 1.
+    assert (Hi : (i < length (bs_dir (run_hist b names hist s0)) / REC_SZ)%nat).
+    { destruct Hsame as [Hl0 _]. rewrite Hl0. apply (find_entry_lt _ _ _ _ Hf). }
+    pose proof (Hs i Hi) as Hr. rewrite clamp_eq.
+    destruct (rec_score (rec_at (bs_dir (run_hist b names hist s0)) i) <? 100) eqn:E1;
+      destruct (100 <? rec_score (rec_at (bs_dir (run_hist b names hist s0)) i) + 1) eqn:E2; try lia;
+      destruct (rec_score (rec_at (bs_dir (run_hist b names hist s0)) i) + 1 <? -100) eqn:E3; lia.
+Qed.
+
+(* non-vacuity: a no-fast-recommend board with pause 60, two articles at scores 99 and -5; A1 pushes the first, B2 pushes the
+   second right afterwards, A1 pushes the second: every push is accepted with the push mark and counts *)
+Definition ex_name2 : list Z := fixlen 28 [77; 46; 49; 54; 48; 55; 50; 48; 48; 49; 48; 48; 46; 65; 46; 49; 51; 48].
+Definition ex_bdir : list Z := patch (fixlen 128 ex_name) 33 [99] ++ patch (fixlen 128 ex_name2) 33 [251].
+Definition ex_board : board := Board false true false true true 60.
+Definition ex_bst : bst := BSt [[120; 10]; [121; 10]] ex_bdir.
+Definition ex_push (who : list Z) (a : nat) (mt : Z) : hstep := HStep (fixlen 13 who) (fixlen 16 [49; 46; 50]) a 1 [104; 105] ex_clock mt.
+Definition ex_hist : list hstep := [ex_push [65; 49] 0 1700000000; ex_push [66; 50] 1 1700000000].
+
+Example ex_board_pushes :
+  scores_ok (bs_dir ex_bst) /\
+  (let s := run_hist ex_board [ex_name; ex_name2] ex_hist ex_bst in
+   rec_score (rec_at (bs_dir s) 0) = 100 /\ rec_score (rec_at (bs_dir s) 1) = -4 /\
+   exists line s1, board_step ex_board [ex_name; ex_name2] (ex_push [65; 49] 1 1700000000) s = COk line s1 /\
+     firstn 10 line = [27; 91; 49; 59; 51; 55; 109; 177; 192; 32] /\ rec_score (rec_at (s_dir s1) 1) = -3 /\
+     length (nth 1 (bs_arts s) []) = 93%nat).
+Proof.
+  split.
+  - intros j Hj. change (length (bs_dir ex_bst) / REC_SZ)%nat with 2%nat in Hj.
+    destruct j as [|[|j]]; [vm_compute; split; discriminate|vm_compute; split; discriminate|lia].
+  - cbv zeta. split; [vm_compute; reflexivity|]. split; [vm_compute; reflexivity|].
+    eexists. eexists. split; [vm_compute; reflexivity|]. split; [vm_compute; reflexivity|]. split; vm_compute; reflexivity.
+Qed.
